@@ -462,6 +462,13 @@ func checkC18(e *Env, r *Report) {
 				addPair(p)
 			}
 		}
+		// and one pair per option on the full-system-policy build: files that only exist there meet the other options
+		d.Full = true
+		for _, p := range neighboursOf(d) {
+			if p.B.Mode == "enforce" || p.Opt == "abi" || (p.Opt == "ver" && p.B.Ver == "4.0") || (p.Opt == "dist" && p.B.Dist == "debian") {
+				addPair(p)
+			}
+		}
 	}
 	// builds
 	need := map[string]Cfg{}
